@@ -156,8 +156,10 @@ def budgets_for(tier: str, cfg=None) -> Dict[str, int]:
 
 
 class ConfigExplorer:
-    def __init__(self, acc: Acc, cfg: Cfg, tier: str, checkers: Sequence[Checker], on_searcher=None, db_hook=None, bound: Optional[int] = None):
+    def __init__(self, acc: Acc, cfg: Cfg, tier: str, checkers: Sequence[Checker], on_searcher=None, db_hook=None, bound: Optional[int] = None,
+                 bound2_max_points: int = 0):
         self.bound = bound  # deviation bound; default: deviation_bound(cfg, tier)
+        self.bound2_max_points = bound2_max_points or BOUND2_MAX_POINTS
         self.acc = acc
         self.cfg = cfg
         self.tier = tier
@@ -220,7 +222,7 @@ class ConfigExplorer:
             # bound 2 is quadratic in the number of decision points: it is used where the default
             # execution has at most BOUND2_MAX_POINTS of them, bound 1 elsewhere (counted)
             probe = execute(self.cfg, [], slice_default=1, horizon=self.horizon, db_hook=self.db_hook, on_searcher=self.on_searcher)
-            if len(probe.dec.trace) > BOUND2_MAX_POINTS:
+            if len(probe.dec.trace) > self.bound2_max_points:
                 total = 1
                 budgets = {k: min(v, 1) for k, v in budgets.items()}
                 self.acc.count("bound2_configurations_run_with_bound1")
